@@ -120,14 +120,43 @@ def inIntRange (n : Int) : Bool := MIN_INT < n && n < MAX_INT
 /-- Python `repr(float(k))` of a small integer -/
 def intRepr (k : Int) : String := toString k ++ ".0"
 
+/-- decimal integer text (`-`? digits), as a list of characters -/
+def parseIntChars (cs : List Char) : Option Int :=
+  let digits (ds : List Char) : Option Nat :=
+    if ds.isEmpty || !ds.all Char.isDigit then none else some (ds.foldl (fun acc c => acc * 10 + (c.toNat - 48)) 0)
+  match cs with
+  | '-' :: ds => (digits ds).map fun n => -(n : Int)
+  | ds => (digits ds).map fun n => (n : Int)
+
 /-- `_scalar_node_from_value(Float, x)` for the float with repr `r`: integral values inside the Int range are
     printed as Int literals -/
 def floatLit (r : String) : Lit :=
-  if r.endsWith ".0" && !(r.contains 'e') then
-    match (String.ofList (r.toList.take (r.length - 2))).toInt? with
+  let cs := r.toList
+  if cs.reverse.take 2 == ['0', '.'] && !cs.contains 'e' then
+    match parseIntChars (cs.take (cs.length - 2)) with
     | some k => if inIntRange k then .int (toString k) (intRepr k) else .float r r
     | none => .float r r
   else .float r r
+
+mutual
+/-- structural equality of (canonical JSON) Python values — what `dict` lookup / `==` does on them -/
+def jEq : J → J → Bool
+  | .null, .null => true
+  | .bool a, .bool b => a == b
+  | .num a, .num b => a == b
+  | .str a, .str b => a == b
+  | .arr a, .arr b => jEqList a b
+  | .obj a, .obj b => jEqObj a b
+  | _, _ => false
+def jEqList : List J → List J → Bool
+  | [], [] => true
+  | x :: xs, y :: ys => jEq x y && jEqList xs ys
+  | _, _ => false
+def jEqObj : List (String × J) → List (String × J) → Bool
+  | [], [] => true
+  | (k, x) :: xs, (l, y) :: ys => k == l && jEq x y && jEqObj xs ys
+  | _, _ => false
+end
 
 /-- `ast_node_from_value` at one of the five specified scalars -/
 def builtinLit (n : String) (v : J) : Option Lit :=
@@ -179,7 +208,7 @@ def valueLit (s : SchemaD) : Nat → J → Ty → Option Lit
           | none => none
           | some t =>
             match t.kind with
-            | .enum => (t.values.find? (·.value == v)).map fun ev => .enum ev.name
+            | .enum => (t.values.find? (fun ev => jEq ev.value v)).map fun ev => .enum ev.name
             | .scalar => customLit v
             | .input =>
               match v with
@@ -367,28 +396,47 @@ def runHistory (st : PrinterState) : List (Opts × SchemaD × Apps) → List Str
 
 /-! ### `schemaToDoc`: the definitions the printer writes, as a document (the by-name content of `to_string`) -/
 
+/-- `print_deprecated`: an empty reason or the default reason prints as bare `@deprecated` -/
 def deprDirs (r : Option String) : List DirApp :=
-  match r with | none => [] | some x => [{ name := "deprecated", args := [("reason", .str x)] }]
+  match r with
+  | none => []
+  | some x => if x.isEmpty || x == DEFAULT_DEPRECATION then [{ name := "deprecated" }]
+              else [{ name := "deprecated", args := [("reason", .str x)] }]
+
+/-- `print_description`: an empty description is not printed -/
+def descToDoc (d : Option String) : Option String :=
+  match d with | some x => if x.isEmpty then none else some x | none => none
 
 def argToDef (s : SchemaD) (a : ArgD) : InputValDef :=
-  { name := a.name, desc := a.desc, type := a.type, default := if a.hasDefault then valueLit s valueFuel a.default a.type else none }
+  { name := a.name, desc := descToDoc a.desc, type := a.type,
+    default := if a.hasDefault then valueLit s valueFuel a.default a.type else none }
 
 def fieldToDef (s : SchemaD) (f : FieldD) : FieldDef :=
-  { name := f.name, desc := f.desc, args := f.args.map (argToDef s), type := f.type, dirs := deprDirs f.deprecated }
+  { name := f.name, desc := descToDoc f.desc, args := f.args.map (argToDef s), type := f.type, dirs := deprDirs f.deprecated }
 
-def enumValToDef (v : EnumValD) : EnumValDef := { name := v.name, desc := v.desc, dirs := deprDirs v.deprecated }
+def enumValToDef (v : EnumValD) : EnumValDef := { name := v.name, desc := descToDoc v.desc, dirs := deprDirs v.deprecated }
 
 def typeToDef (s : SchemaD) (t : TypeD) : TypeDef :=
-  { kind := t.kind, name := t.name, desc := t.desc, interfaces := t.interfaces, fields := t.fields.map (fieldToDef s),
+  { kind := t.kind, name := t.name, desc := descToDoc t.desc, interfaces := t.interfaces, fields := t.fields.map (fieldToDef s),
     members := t.members, values := t.values.map enumValToDef, inputFields := t.inputFields.map (argToDef s) }
 
 def directiveToDef (s : SchemaD) (d : DirectiveD) : DirDef :=
-  { name := d.name, desc := d.desc, args := d.args.map (argToDef s), locations := d.locations }
+  { name := d.name, desc := descToDoc d.desc, args := d.args.map (argToDef s), locations := d.locations }
 
+/-- `print_schema_definition` (without schema-level directive applications): the `schema { … }` block is written
+    unless every root that is set carries its conventional name -/
+def needsSchemaBlock (s : SchemaD) : Bool :=
+  let dflt (r : Option String) (n : String) := match r with | none => true | some x => x == n
+  !(dflt s.query "Query" && dflt s.mutation "Mutation" && dflt s.subscription "Subscription")
+
+def rootOps (s : SchemaD) : List (String × String) :=
+  (match s.query with | some q => [("query", q)] | none => []) ++
+  (match s.mutation with | some q => [("mutation", q)] | none => []) ++
+  (match s.subscription with | some q => [("subscription", q)] | none => [])
+
+/-- the document `to_string` denotes: schema block (if needed), directive definitions, type definitions -/
 def schemaToDoc (s : SchemaD) : Doc :=
-  s.directives.map (fun d => .directive (directiveToDef s d)) ++ s.types.map (fun t => .type (typeToDef s t)) ++
-  [.schema { ops := (match s.query with | some q => [("query", q)] | none => []) ++
-                    (match s.mutation with | some q => [("mutation", q)] | none => []) ++
-                    (match s.subscription with | some q => [("subscription", q)] | none => []) }]
+  (if needsSchemaBlock s then [.schema { ops := rootOps s }] else []) ++
+  s.directives.map (fun d => .directive (directiveToDef s d)) ++ s.types.map (fun t => .type (typeToDef s t))
 
 end PyGql.SdlPrint
